@@ -15,6 +15,7 @@
 #include <filesystem>
 #include <functional>
 #include <set>
+#include <tuple>
 
 #if defined(__SANITIZE_ADDRESS__)
 #include <sanitizer/common_interface_defs.h>
@@ -336,6 +337,7 @@ struct Fault
         TRUNC,
         NONCELLML,
         V11,
+        ISDIR,
         RENAME,
         CYCLE,
         UCYC
@@ -356,7 +358,8 @@ enum FileState
     ST_MISSING,
     ST_BADXML,
     ST_NONCELLML,
-    ST_V11
+    ST_V11,
+    ST_UNREADABLE // a directory sits where the file should be: open() succeeds, read() fails with EISDIR
 };
 
 // import entities whose target is (f,e)
@@ -406,6 +409,10 @@ std::vector<Fault> enumerateFaults(const Graph &g)
         f.type = Fault::V11;
         f.cls = "cellml11";
         f.desc = fn + " replaced by its CellML 1.1 rendering";
+        out.push_back(f);
+        f.type = Fault::ISDIR;
+        f.cls = "read-error";
+        f.desc = fn + " replaced by a directory of the same name (open succeeds, read fails with EISDIR)";
         out.push_back(f);
     }
     // referenced entity renamed (consistently inside its own file, so that only the imports dangle)
@@ -604,6 +611,10 @@ Scenario applyFault(const Graph &g, const Fault &f)
         case Fault::V11:
             sc.state[j] = ST_V11;
             sc.text[j] = writeFileText(sc.bad, j, true);
+            break;
+        case Fault::ISDIR:
+            sc.state[j] = ST_UNREADABLE;
+            sc.text[j].clear();
             break;
         default:
             break;
@@ -1102,11 +1113,7 @@ ChildResult runIsolated(const std::function<void()> &body)
         gRecFd = rp[1];
         dup2(ep[1], 2);
         dup2(ep[1], 1);
-        struct rlimit rl;
-        if (getrlimit(RLIMIT_STACK, &rl) == 0) { // a smaller stack makes runaway recursion cheap to diagnose
-            rl.rlim_cur = std::min<rlim_t>(rl.rlim_cur, 4u << 20);
-            setrlimit(RLIMIT_STACK, &rl);
-        }
+        struct rlimit rl; // (the stack limit is deliberately left at the inherited default)
         alarm(kChildSeconds);
         rl.rlim_cur = kChildCpuSeconds; // work bound: a scenario needs ~15 ms of CPU
         rl.rlim_max = kChildCpuSeconds + 2;
@@ -1220,10 +1227,18 @@ bool writeScenarioFiles(const std::string &dir, const Graph &g, const std::vecto
         if (!g.files[i].dir.empty()) {
             fs::create_directories(dir + "/" + g.files[i].dir);
         }
+        std::error_code ec;
         if (state[i] == ST_MISSING) {
-            std::error_code ec;
-            fs::remove(p, ec);
+            fs::remove_all(p, ec);
             continue;
+        }
+        if (state[i] == ST_UNREADABLE) {
+            fs::remove_all(p, ec);
+            ok = fs::create_directory(p, ec) && ok;
+            continue;
+        }
+        if (fs::is_directory(p, ec)) {
+            fs::remove_all(p, ec);
         }
         ok = writeFile(p, text[i]) && ok;
     }
@@ -1234,8 +1249,8 @@ std::string replayText(const Scenario &sc, bool strict, const std::string &baseA
 {
     std::string r = "fault: " + sc.fault.desc + " [" + sc.fault.cls + "]\nimporter: " + (strict ? "strict" : "permissive") + "\nshape: " + sc.good.shape() + "\nbasePath suffix: " + baseArg + "\n";
     for (size_t i = 0; i < sc.bad.files.size(); ++i) {
-        r += "==== " + sc.bad.files[i].path() + (i == 0 ? " (root)" : "") + (sc.state[i] == ST_MISSING ? " -- MISSING" : "") + "\n";
-        if (sc.state[i] != ST_MISSING) {
+        r += "==== " + sc.bad.files[i].path() + (i == 0 ? " (root)" : "") + (sc.state[i] == ST_MISSING ? " -- MISSING" : sc.state[i] == ST_UNREADABLE ? " -- A DIRECTORY" : "") + "\n";
+        if (sc.state[i] != ST_MISSING && sc.state[i] != ST_UNREADABLE) {
             r += sc.text[i];
             if (r.empty() || r.back() != '\n') {
                 r += "\n";
@@ -1379,6 +1394,59 @@ ModelPtr parseRoot(const std::string &dir, const Graph &g, const std::string &wh
         return nullptr;
     }
     return m;
+}
+
+// Does the root depend on an import entity that is reached through at least one non-import link (child, variable
+// units, unit reference)?  Pure structure of the IR; failures are ignored.
+bool hasOffChainImport(const Graph &g)
+{
+    std::set<std::tuple<int, int, bool>> visited;
+    std::vector<std::tuple<int, int, bool>> todo;
+    const auto &root = g.files[0].ents;
+    for (size_t e = 0; e < root.size(); ++e) {
+        if (root[e].imp) {
+            todo.emplace_back(0, static_cast<int>(e), false);
+        }
+    }
+    while (!todo.empty()) {
+        auto cur = todo.back();
+        todo.pop_back();
+        if (!visited.insert(cur).second) {
+            continue;
+        }
+        int f = std::get<0>(cur);
+        int e = std::get<1>(cur);
+        bool off = std::get<2>(cur);
+        const auto &es = g.files[static_cast<size_t>(f)].ents;
+        const Ent &E = es[static_cast<size_t>(e)];
+        if (E.imp) {
+            if (off) {
+                return true;
+            }
+            if (E.impFile >= 0 && E.impFile < static_cast<int>(g.files.size())) {
+                int t = g.find(E.impFile, E.impRef, E.isComp);
+                if (t >= 0) {
+                    todo.emplace_back(E.impFile, t, off);
+                }
+            }
+        }
+        if (E.isComp) {
+            for (size_t c = 0; c < es.size(); ++c) {
+                if (es[c].isComp && es[c].parent == e) {
+                    todo.emplace_back(f, static_cast<int>(c), true);
+                }
+            }
+        }
+        if (!E.imp) {
+            for (const auto &u : E.uses) {
+                int t = g.find(f, u, false);
+                if (t >= 0) {
+                    todo.emplace_back(f, t, true);
+                }
+            }
+        }
+    }
+    return false;
 }
 
 // ------------------------------------------------------------------------------------------------ one scenario
@@ -1687,9 +1755,11 @@ void runScenario(Ctx &ctx, const Scenario &sc, bool strict)
     bool nontrivial = sc.good.files.size() >= 2 && sc.good.importEdges() >= 1;
     caseInfo(hex64(fnv1a(shape + "|" + cls + "|" + sc.fault.desc + "|" + mode)), nontrivial,
              sc.good.origin + " " + shape + " | fault: " + sc.fault.desc + " | " + mode);
-    // Isolation costs a fork of an ASan process (several ms), so it is used where the statement's termination clause is
-    // at stake (import cycles, cyclic plain units); other scenarios run in-process under the supervisor's crash handling.
-    bool isolate = sc.fault.type == Fault::CYCLE || sc.fault.type == Fault::UCYC;
+    // Isolation costs a fork of an ASan process (several ms), so it is used (a) where the statement's termination clause
+    // is at stake (import cycles, cyclic plain units) and (b) when the root depends on an import that is not on a pure
+    // import->import chain from the root (reached through an encapsulated child, a variable's units or a unit reference).
+    // Scenarios in which every import sits on a pure chain run in-process under the supervisor's crash handling.
+    bool isolate = sc.fault.type == Fault::CYCLE || sc.fault.type == Fault::UCYC || hasOffChainImport(sc.bad) || hasOffChainImport(sc.good);
     if (!isolate) {
         scenarioBody(sc, strict, dir, base, replay);
         stat("scenarios_completed");
@@ -1718,7 +1788,7 @@ uint64_t gcd64(uint64_t a, uint64_t b)
 
 constexpr int64_t kQuickFamily = 6500;
 constexpr int64_t kQuickRandom = 3500;
-constexpr int64_t kThoroughRandom = 60000;
+constexpr int64_t kThoroughRandom = 30000;
 
 } // namespace
 
@@ -1754,6 +1824,7 @@ void vh_run_case(Ctx &ctx)
         auto faults = enumerateFaults(g);
         const Fault &f = faults[static_cast<size_t>(pair - fam.prefix[gi])];
         stat("family_scenarios");
+        seen("family_size", "graphs=" + std::to_string(fam.graphs.size()) + " graph-fault-pairs=" + std::to_string(fam.pairs) + " scenarios=" + std::to_string(famTotal));
         runScenario(ctx, applyFault(g, f), strict);
         return;
     }
